@@ -6,6 +6,21 @@ ALL = ["C%02d" % i for i in range(1, 21)]
 
 # id -> (category, technique, level text, level note, design section)
 CHECKS = {
+ "C01": ("fault_enumeration",
+         "crash-point enumeration over the recorded storage-op log of real runs (monitoring Directory with a visible/durable model), recovery with Index::open compared with the sequential model; online commit-point monitor T1",
+         "Every boundary after a mutating storage operation of each executed history is a crash point; at each, the persistence outcomes {nothing pending survives, everything, every M1 prefix, sampled M2 subsets} x {unsynced data lost / complete / random prefix} are materialised and recovered (quick ~2e5 images, thorough millions): recovery succeeds, shows exactly the last acknowledged or the in-flight commit (all fields on a sample, ids always), every referenced file passes its checksum, and the image accepts writer + commit + GC. Enumeration is complete for the boundaries of the executed runs only; other interleavings of the same history are reached by repetition and noise.",
+         "Trusted: the durability model (data durable at terminate, directory entries at the next sync_directory; DESIGN.md §3.1), MonDir, the sequential model. Sector-level torn writes are only covered as prefixes.",
+         "DESIGN.md §7 C01"),
+ "C05": ("exploration",
+         "runtime monitoring: concurrent reader threads observing reloads against the list of committed model states (exact set match, freshness, monotonicity), re-fingerprinting of held searchers, forced schedules parking a loading reader at each file open via the monitoring Directory",
+         "Held on the stress runs and forced schedules executed (MonDir, RamDirectory and MmapDirectory): every reload equals exactly one committed state, never older than commits completed before it started, monotone per reader; held searchers stay bit-identical in content during the run and after writer shutdown + GC; a reader parked between meta.json and any segment-file open while commits, merges and GC run still loads a whole commit.",
+         "Trusted: unique ids + one marker document per commit identify commits; schedules are those forced or produced, not all.",
+         "DESIGN.md §7 C05"),
+ "C10": ("exploration",
+         "runtime monitoring: online delete monitor (T3) in the monitoring Directory, file-set equality at quiescent points, forced GC-vs-writer/merge schedules through gates, recovered crash images continued with commit+GC",
+         "Held on the histories, forced schedules and crash images executed: GC never deleted a file referenced by the visible or durable meta.json, nothing a loading thread needed vanished, and at every quiescent point the directory equals the committed segments' files + meta.json + .managed.json with .managed.json listing exactly the managed files present. Known finding (M2-only orphan after a crash) is listed in known_findings.txt.",
+         "Trusted: quiescence = wait_merging_threads + new writer + explicit GC; durability model of DESIGN.md §3.1.",
+         "DESIGN.md §7 C10"),
  "C02": ("exploration",
          "runtime monitoring: generated histories on the real IndexWriter checked after every commit/rollback/reopen against a sequential model; interval-order check for concurrent producers",
          "Held on the histories executed (quick ~200, thorough several thousand; 5-60 operations each, 1-8 indexing threads, merge policy on/off, sorted or not, segment cuts forced inside transactions): every observation after a commit / rollback / reopen equals the sequential replay of the acknowledged operations (all fields, exactly once, term and range queries, opstamps, payload). Not a proof: says nothing about histories or interleavings that were not produced.",
